@@ -87,7 +87,7 @@ CHECKS.update({
                 note="Trusted: single-rule construction of candidates; bundled always_success / always_failure / secp256k1 binaries. The pool's conservative commit-position estimate is honoured: pool expectations are only set where it cannot matter."),
     "C14": dict(engine="tx", category="exploration", design="4/C14",
                 technique="runtime monitoring: differential between a warm node with default caches and a node with store caches of size 0/1 whose verification cache is cleared before every event; repeated events on the warm node (cache hits)",
-                text="The C04 candidate/event sequence is replayed on a warm node and on a cold node (StoreConfig cache sizes 0 or 1, txs_verify_cache cleared before every event): pool and block verdicts, recorded fees / cycles / sizes (BlockExt) and the chain answer vector (blocks, headers, transactions, cells of the whole context) must be identical; every event is repeated on the warm node after the verification cache has been filled by the pool and block paths (context-dependent candidates: since, maturity, liveness must still be refused); a block carrying a transaction with a corrupted signature after its valid twin (same tx hash, different witness) was cached must be refused; commit-position shift: since / maturity candidates cached as valid for position n are offered at position n-1 and must be refused; half of the contexts run with the process-wide SYSTEM_CELL cache initialised as `ckb run` does, half without.",
+                text="The C04 candidate/event sequence is replayed on a warm node and on a cold node (StoreConfig cache sizes 0 or 1, txs_verify_cache cleared before every event): pool and block verdicts, recorded fees / cycles / sizes (BlockExt) and the chain answer vector (blocks, headers, transactions, cells of the whole context) must be identical; every event is repeated on the warm node after the verification cache has been filled by the pool and block paths (context-dependent candidates: since, maturity, liveness must still be refused); a block carrying a transaction with a corrupted signature after its valid twin (same tx hash, different witness) was cached must be refused; commit-position shift: since / maturity candidates cached as valid for position n are offered at position n-1 and must be refused; half of the contexts run with the process-wide SYSTEM_CELL cache initialised as `ckb run` does, half without. Also compared between the two nodes: what the store answers about the hash of a probe block refused and deleted as invalid, about the first output of a candidate whose block was attached, read once and truncated away, and about every attached probe block whose hash had been asked about once before the block was delivered. Script-skip episode: a node with one assume-valid target imports a sibling of the target block (same transaction, scripts off), is truncated back and imports the target block with full verification, with and without clearing the verification cache in between: verdict and recorded cycles must equal those of a directly synchronised node.",
                 note="Trusted: an LRU of capacity 0 disables a cache (measured, DESIGN section 9)."),
     "C05": dict(engine="script", category="exploration", design="4/C05",
                 technique="runtime monitoring: differential of chunked / signalled executions of the real ckb-script scheduler against the uninterrupted run of the same transaction; pause points recorded through hook H6",
@@ -102,9 +102,9 @@ CHECKS.update({
                 text="Histories with random fees, proposers spread over main-chain blocks and uncles, re-proposals inside the window, several epoch lengths with remainder rewards, NervosDAO deposits / withdraw phases 1 and 2, forks and truncations are generated on a real node; every block ever accepted (on every fork) is exported and the Python checker recomputes primary / secondary issuance, the committer and proposer shares per fee (earliest proposer, each share paid once), the cellbase amount and lock, every DAO field component (C, AR, S, U) from the parent's, U against the occupied capacity of the replayed live-cell set, and withdrawal maxima; compared with the recorded cellbase outputs, headers and BlockExt fees.",
                 note="Trusted: the RFC formulas as transcribed in oracles/econ.py; block template numbers come from production calculators but are only inputs to be judged. One consensus-affecting defect (proposer share of block #1) is a known finding."),
     "C18": dict(engine="indexer", category="exploration", design="4/C18",
-                technique="runtime monitoring: the real ckb-indexer (hook H8) following a builder node through reorgs exactly as IndexerSyncService decides; every RPC answer compared with a direct filter over a model folded from the harness's own block copies; byte dump of the index before append vs after rollback",
-                text="Generated histories with reorgs, shared / prefix-related lock and type scripts, cells created and consumed in the same block, pruning (keep_num / prune_interval) are followed by the real Indexer through append / rollback; at tips and after steps, generated search keys (lock / type, prefix / exact, filter script, script_len / data / data_len / capacity / block ranges, asc / desc, page sizes and cursors, grouped transactions) are answered by IndexerHandle::{get_cells, get_transactions, get_cells_capacity, get_indexer_tip} and by the model; rollback of the last block must restore the raw key-value dump taken before it was appended (within retention).",
-                note="Trusted: the documented RPC semantics ([inclusive, exclusive) ranges, prefix default). The rich-indexer (SQL) is not covered: it needs a sqlite/async hook that was not added. Prefix searches with args ending in zero bytes are a known finding."),
+                technique="runtime monitoring: the real ckb-indexer (hook H8) and the real ckb-rich-indexer on in-memory SQLite (hook H8b) following a builder node through reorgs exactly as IndexerSyncService decides; every RPC answer compared with a direct filter over a model folded from the harness's own block copies; byte dump of the index before append vs after rollback (answers before / after for the SQL indexer)",
+                text="Generated histories with reorgs, shared / prefix-related lock and type scripts, cells created and consumed in the same block, pruning (keep_num / prune_interval) are followed by the real Indexer through append / rollback; at tips and after steps, generated search keys (lock / type, prefix / exact, filter script, script_len / data / data_len / capacity / block ranges, asc / desc, page sizes and cursors, grouped transactions) are answered by IndexerHandle::{get_cells, get_transactions, get_cells_capacity, get_indexer_tip} and by the model; rollback of the last block must restore the raw key-value dump taken before it was appended (within retention). Rich-indexer part: an AsyncRichIndexer on in-memory SQLite follows a share of the same histories (plus histories whose args and data are made of 0xff bytes) through append / rollback of any depth; get_cells / get_transactions (grouped and ungrouped) / get_cells_capacity / get_indexer_tip are judged by the same model for lock / type keys in exact / prefix / default / partial mode with every filter kind, asc / desc, cursor walks with small pages, and append(b); rollback() must restore every answer for a key set.",
+                note="Trusted: the documented RPC semantics ([inclusive, exclusive) ranges, prefix default); for the rich-indexer its documented differences (partial mode everywhere, every filter kind in get_transactions, filter.script matched as prefix, opaque cursors, unspecified order inside one transaction, null capacity when nothing matches) are encoded as assumptions in the evidence; SQLite only (the PostgreSQL branches of the SQL builders are not run). Prefix searches with args ending in zero bytes (RocksDB indexer) and prefixes made of 0xff bytes (rich-indexer) are known findings."),
 })
 
 NOT_YET = "check under construction (DESIGN.md section 4); not claimed yet"
